@@ -8,6 +8,8 @@ import JominiModel.Spec.JsonDoc
 import JominiModel.Proofs.JsonDoc
 import JominiModel.Proofs.JsonTape
 import JominiModel.Proofs.JsonUtf8
+import JominiModel.Proofs.TextTapeJsonWf
+import JominiModel.Proofs.JsonEndToEnd
 /-
 C16 — JSON conversion is valid JSON and carries the document's content.
 Only property theorems live here; helper lemmas are in `Proofs/Json*.lean`.
@@ -302,5 +304,13 @@ theorem C16_valid_output (ff : Nat → Bytes) (hff : ∀ b, isNumber (ff b) = tr
 
 example : validUtf8 (decode .utf8 [0x61, 0xC3, 0x28, 0xE2, 0x82, 0x5C, 0xF5, 0x20]) = true := by decide +kernel
 example : decode .utf8 [0x61, 0xC3, 0x28, 0xF5, 0x20] = [0x61, 0xEF, 0xBF, 0xBD, 0x28, 0xEF, 0xBF, 0xBD] := by decide +kernel
+
+/-- END TO END, bytes → JSON, at the model level: for every fragment-3 document under every valid layout
+the text tape parser model accepts the rendered bytes and the JSON conversion of its tape is the
+JSON of the document, for all options and both encodings; hence layout independent. -/
+theorem C16_end_to_end : type_of% @Jomini.JsonEndToEnd.end_to_end := @Jomini.JsonEndToEnd.end_to_end
+
+theorem C16_end_to_end_layout_independent : type_of% @Jomini.JsonEndToEnd.end_to_end_layout_independent :=
+  @Jomini.JsonEndToEnd.end_to_end_layout_independent
 
 end Jomini.Props.C16
